@@ -69,6 +69,11 @@ def make_obs(ctx):
                           units=DT_UNITS, unwind=16, mem=True, replay='asan', group='strfd', timeout=300,
                           bounds={'format': f, 'buffer': '%d bytes (heap object of exactly that size)' % bz,
                                   'value': 'any ymd / ymcw / ywd / daisy / bizda value with in-range fields'}))
+    # (E) the escape decoder of -e / --backslash-escapes
+    for sl in ((0, 1, 2, 3, 4) if ctx.tier == 'quick' else (0, 1, 2, 3, 4, 5, 6, 8)):
+        obs.append(Ob('unescape:len%d' % sl, 'C10_io.c', 'h_unescape', {'SLEN': sl}, units=[], unwind=sl + 4, mem=True, replay='asan',
+                      group='unescape', timeout=300,
+                      bounds={'string': '%d arbitrary non-NUL bytes in an object of exactly %d bytes' % (sl, sl + 1)}))
     # (PT/FT) time parser and formatter, (PDT/FDT) date-time parser and formatter
     tfm = ['%T', '%H:%M:%S', '%I:%M:%S %p', '%H', '%M', '%S', '%N', '%I%P', '%H:%M:%S.%N', '%T %', '%H%%']
     tils = (0, 1, 2, 4) if ctx.tier == 'quick' else (0, 1, 2, 3, 4, 5, 6, 8)
